@@ -16,15 +16,15 @@ WORDS = ["x", "y", "z", "w*", "*", "fo?", "a\\*b", "12"]
 # schema (the truth about the index) and its spellings as builder options
 # ---------------------------------------------------------------------------------------------
 
-def gen_schema(rng, depth=0, max_depth=3):
+def gen_schema(rng, depth=0, max_depth=3, in_nested=False):
     """{name: {"kind": text|keyword|nested|object, "children": schema, "sub": {name: kind}}}"""
     out = {}
     for name in rng.sample(NAMES, rng.choice([1, 2, 3] if depth else [2, 3, 4])):
         k = rng.random()
         if depth < max_depth and k < 0.3:
-            out[name] = {"kind": "nested", "children": gen_schema(rng, depth + 1, max_depth), "sub": {}}
-        elif depth < max_depth and k < 0.45:
-            out[name] = {"kind": "object", "children": gen_schema(rng, depth + 1, max_depth), "sub": {}}
+            out[name] = {"kind": "nested", "children": gen_schema(rng, depth + 1, max_depth, True), "sub": {}}
+        elif depth < max_depth and k < 0.45 and not in_nested:
+            out[name] = {"kind": "object", "children": gen_schema(rng, depth + 1, max_depth, False), "sub": {}}
         else:
             kind = rng.choice(["text", "text", "keyword"])
             sub = {}
@@ -63,17 +63,16 @@ def innermost_nested(schema, path):
 
 
 def nested_spec(schema, rng=None, prefix_keys=()):
-    """nested_fields in dict form: nested containers as keys; leaves / object members as dotted keys"""
-    def members(children, rel=()):
+    """nested_fields in dict form: keys = nested containers (dotted when they sit inside objects), members =
+    plain names of their leaves (None) or nested sub-containers (dict). Object containers inside a nested
+    container cannot be expressed in this format: their leaves are left out of the spec."""
+    def members(children):
         out = {}
         for name, node in children.items():
-            key = ".".join(rel + (name,))
             if node["kind"] == "nested":
-                out[key] = members(node["children"])
-            elif node["kind"] == "object":
-                out.update(members(node["children"], rel + (name,)))
-            else:
-                out[key] = None
+                out[name] = members(node["children"])
+            elif node["kind"] in ("text", "keyword"):
+                out[name] = None
         return out
 
     def top(children, rel=()):
@@ -122,7 +121,7 @@ def not_analyzed(schema):
     return out
 
 
-def gen_cfg(rng, schema):
+def gen_cfg(rng, schema, multi_match=True):
     """builder keyword arguments (python values)"""
     cfg = {"default_operator": rng.choice(["should", "must"])}
     lv = [".".join(p) for p, _ in leaves(schema)]
@@ -142,7 +141,7 @@ def gen_cfg(rng, schema):
         fo = {}
         for f in rng.sample(lv + ["text"], min(len(lv) + 1, rng.choice([1, 2]))):
             fo[f] = rng.choice([{"boost": 2}, {"type": "phrase"}, {"match_type": "match_phrase"},
-                                {"analyze_wildcard": False}, {"match_type": "multi_match", "fields": "x"},
+                                {"analyze_wildcard": False}] + ([{"match_type": "multi_match", "fields": "x"}] if multi_match else []) + [
                                 {"slop": 1, "type": "phrase_prefix"}, {"fuzziness": 1}])
         cfg["field_options"] = fo
     if rng.random() < 0.15:
@@ -393,12 +392,20 @@ def phrase_text(v):
     return re.sub(r"\s+", " ", v)[1:-1]
 
 
-def denote(d, o, cfg, containers, truth, prefix=(), analyzed=None):
-    """truth of the luqum tree (json) at object o"""
+WRAPPERS = ("Group", "FieldGroup", "Boost", "SearchField")
+
+
+def denote(d, o, cfg, containers, truth, prefix=(), quirks=()):
+    """truth of the luqum tree (json) at object o. `quirks` switches on the behaviour of known findings
+    (KF3: operands of a boolean operation are classified through group / field / boost wrappers;
+    KF4: a boolean operation directly inside another one is spliced into it)"""
     c = d["c"]
     ch = d["ch"]
     dflt_or = cfg.get("default_operator", "should") == "should"
     field = ".".join(prefix) if prefix else cfg.get("default_field", "text")
+
+    def rec(x, oo=o, pp=prefix):
+        return denote(x, oo, cfg, containers, truth, pp, quirks)
     if c == "Word":
         return truth(o, (field, d["v"]))
     if c == "Phrase":
@@ -409,25 +416,63 @@ def denote(d, o, cfg, containers, truth, prefix=(), analyzed=None):
         kw = {k: v for k, v in kw.items() if v and v != "*"}
         return truth(o, (field, json.dumps(kw, sort_keys=True)))
     if c in ("Fuzzy", "Proximity", "Boost", "Group", "FieldGroup", "Plus"):
-        return denote(ch[0], o, cfg, containers, truth, prefix)
+        return rec(ch[0])
     if c in ("Not", "Prohibit"):
-        return not denote(ch[0], o, cfg, containers, truth, prefix)
+        return not rec(ch[0])
     if c == "AndOperation":
-        return all(denote(x, o, cfg, containers, truth, prefix) for x in ch)
+        return all(rec(x) for x in ch)
     if c == "OrOperation":
-        return any(denote(x, o, cfg, containers, truth, prefix) for x in ch)
+        return any(rec(x) for x in ch)
     if c == "UnknownOperation":
-        return (any if dflt_or else all)(denote(x, o, cfg, containers, truth, prefix) for x in ch)
+        return (any if dflt_or else all)(rec(x) for x in ch)
     if c == "BoolOperation":
-        must = [x["ch"][0] for x in ch if x["c"] == "Plus"]
-        mnot = [x["ch"][0] for x in ch if x["c"] in ("Not", "Prohibit")]
-        should = [x for x in ch if x["c"] not in ("Plus", "Not", "Prohibit")]
-        if not all(denote(x, o, cfg, containers, truth, prefix) for x in must):
+        ops = list(ch)
+        if "KF4" in quirks:
+            flat = []
+
+            def splice(xs):
+                for x in xs:
+                    if x["c"] == "BoolOperation":
+                        splice(x["ch"])
+                    else:
+                        flat.append(x)
+            splice(ops)
+            ops = flat
+        must, mnot, should = [], [], []
+        for x in ops:
+            kind = x["c"]
+            if kind == "Plus":
+                must.append((x["ch"][0], o, prefix))
+            elif kind in ("Not", "Prohibit"):
+                mnot.append((x["ch"][0], o, prefix))
+            elif "KF3" in quirks:
+                # look through wrappers that return the inner E-node itself
+                core, pp, blocked = x, prefix, False
+                while core["c"] in WRAPPERS and not blocked:
+                    if core["c"] == "SearchField":
+                        names = tuple(core["name"].split("."))
+                        full = pp + names
+                        if any(".".join(pp + names[:len(names) - i]) in containers for i in range(len(names))):
+                            blocked = True
+                            break
+                        pp = full
+                    core = core["ch"][0]
+                if blocked:
+                    should.append((x, o, prefix))
+                elif core["c"] in ("Plus", "AndOperation") or (core["c"] == "UnknownOperation" and not dflt_or):
+                    must.append((core, o, pp))
+                elif core["c"] in ("Not", "Prohibit"):
+                    mnot.append((core["ch"][0], o, pp))
+                else:
+                    should.append((x, o, prefix))
+            else:
+                should.append((x, o, prefix))
+        if not all(rec(x, oo, pp) for x, oo, pp in must):
             return False
-        if any(denote(x, o, cfg, containers, truth, prefix) for x in mnot):
+        if any(rec(x, oo, pp) for x, oo, pp in mnot):
             return False
         if not must and should:
-            return any(denote(x, o, cfg, containers, truth, prefix) for x in should)
+            return any(rec(x, oo, pp) for x, oo, pp in should)
         return True
     if c == "SearchField":
         names = tuple(d["name"].split("."))
@@ -439,9 +484,33 @@ def denote(d, o, cfg, containers, truth, prefix=(), analyzed=None):
                 np = cand
                 break
         if np is None or (o["path"] is not None and (o["path"] == np or o["path"].startswith(np + "."))):
-            return denote(ch[0], o, cfg, containers, truth, full)
-        return any(denote(ch[0], k, cfg, containers, truth, full) for k in desc(o, np))
+            return rec(ch[0], o, full)
+        return any(rec(ch[0], k, full) for k in desc(o, np))
     raise ValueError("unsupported construct %s" % c)
+
+
+def bool_operand_kinds(d, cfg, containers):
+    """classification of the BoolOperation operands of a tree for the hypotheses of C05:
+    'flat-and' (un-grouped AND / must-like implicit operand: Lucene's flat reading, outside the claim),
+    'wrapped' (KF3), 'nested-bool' (KF4)"""
+    dflt_or = cfg.get("default_operator", "should") == "should"
+    found = set()
+    for _, n in common.tree_nodes(d):
+        if n["c"] != "BoolOperation":
+            continue
+        for x in n["ch"]:
+            if x["c"] == "BoolOperation":
+                found.add("nested-bool")
+            if x["c"] == "AndOperation" or (x["c"] == "UnknownOperation" and not dflt_or):
+                found.add("flat-and")
+            core, depth = x, 0
+            while core["c"] in WRAPPERS:
+                core = core["ch"][0]
+                depth += 1
+            if depth and (core["c"] in ("Plus", "AndOperation", "Not", "Prohibit") or
+                          (core["c"] == "UnknownOperation" and not dflt_or)):
+                found.add("wrapped")
+    return found
 
 
 def declared_containers(spec, prefix=""):
